@@ -1,5 +1,6 @@
 //! C12 — Up-down and publication requests act only for the registered
 //! identity key.
+use std::str::FromStr;
 use std::collections::{BTreeMap, BTreeSet};
 
 use bytes::Bytes;
@@ -25,6 +26,8 @@ pub enum SOp {
     Req8181 { signer: u8, to: u8, pay: Pay8181, flip: Option<u32> },
     ChildId { child: u8, id: u8 },
     ParentId,
+    /// the administrator suspends a child (its next authentic request wakes it up again)
+    Suspend { child: u8 },
 }
 
 #[derive(Clone, Debug, Serialize, Deserialize)]
@@ -79,6 +82,7 @@ fn sop() -> impl Strategy<Value = SOp> {
         }),
         2 => (0u8..2, 0u8..5).prop_map(|(child, id)| SOp::ChildId { child, id }),
         1 => Just(SOp::ParentId),
+        2 => (0u8..2).prop_map(|child| SOp::Suspend { child }),
     ]
 }
 
@@ -106,9 +110,16 @@ struct Run {
     sw: SigWorld,
     /// keys certified per child according to accepted requests
     issued: BTreeMap<String, BTreeSet<String>>,
+    /// children the administrator suspended and that have not sent an authentic request since
+    suspended: BTreeSet<String>,
 }
 
 impl Run {
+    fn is_suspended(&self, child: &str) -> bool {
+        let ch = rpki::ca::idexchange::ChildHandle::from_str(child).unwrap();
+        self.sw.w.cam().ca_show_child(&rpki::ca::idexchange::CaHandle::from_str(PARENT).unwrap(), &ch).ok().and_then(|d| serde_json::to_value(&d).ok()).and_then(|v| v.get("state").and_then(|s| s.as_str()).map(|s| s == "suspended")).unwrap_or(false)
+    }
+
     fn step(&mut self, op: &SOp) -> Result<Result<(), Bad>, Fail> {
         match op {
             SOp::ChildId { child, id } => {
@@ -119,6 +130,14 @@ impl Run {
             }
             SOp::ParentId => {
                 self.sw.update_parent_id()?;
+                Ok(Ok(()))
+            }
+            SOp::Suspend { child } => {
+                let c = CHILDREN[*child as usize % 2];
+                if self.sw.w.child_update(PARENT, c, krill::api::admin::UpdateChildRequest::suspend()).is_ok() {
+                    self.suspended.insert(c.to_string());
+                    self.sw.hit("child_suspended");
+                }
                 Ok(Ok(()))
             }
             SOp::Req6492 { signer, sender, recipient, pay, flip } => self.req6492(*signer, *sender, *recipient, pay, *flip),
@@ -179,13 +198,29 @@ impl Run {
                 return Ok(Err(bad("c12-refused-request-changed-state", "rfc6492", format!("refused request {pay:?} from '{sender_name}' (signer #{signer_id}, flipped {flipped}) changed state: {before:?} -> {after:?}"))));
             }
             self.sw.hit(if flipped { "flip_refused" } else if registered.is_some() { "wrong_key_refused" } else { "unknown_sender_refused" });
+            if self.suspended.contains(sender_name) {
+                self.sw.hit("refused_request_in_the_name_of_a_suspended_child");
+            }
             return Ok(Ok(()));
         }
         if flipped {
             // accepted or not, the damaged bytes still carry the identical message
             self.sw.hit("flip_with_identical_content");
         }
-        // authorised request with intact content
+        // authorised request with intact content: a suspended child that calls in is woken
+        // up (one more command of the parent, its certificates come back)
+        let woke_up = self.suspended.contains(sender_name) && !self.is_suspended(sender_name);
+        if woke_up {
+            self.suspended.remove(sender_name);
+            self.sw.hit("suspended_child_woken_by_authentic_request");
+        }
+        let mut before = before;
+        if woke_up {
+            before.parent_version = after.parent_version;
+            if let Some(a) = after.children.get(sender_name) {
+                before.children.insert(sender_name.to_string(), a.clone());
+            }
+        }
         let Some(reply) = reply else {
             // refused: nothing may have changed
             // refused for a reason of its own (unknown class, limit beyond the
@@ -415,7 +450,7 @@ impl Prop for C12 {
             Ok(w) => w,
             Err(f) => return fail_outcome(f, "setup"),
         };
-        let mut run = Run { sw, issued: Default::default() };
+        let mut run = Run { sw, issued: Default::default(), suspended: Default::default() };
         for (i, op) in case.ops.iter().enumerate() {
             match run.step(op) {
                 Err(f) => return fail_outcome(f, &format!("op #{i} {op:?}")),
